@@ -26,6 +26,7 @@ DECIDED = [
     "R-C13-LAZY: the lazy result slot takes the place of the latest set_result/set_exception call (shared with C16)",
     "R-C13-VALIDATE: Connection.__post_init__ probes the results broker's bucket class against ResultBucketT",
     "R-C13-VALIDATE (config): Connection._update_from_config gives each broker the Config class of its own role (results broker <- RESULT_BUCKET)",
+    "R-C13-FIELDS (uncached): Job.result asks the results broker on every read; R-C13-LAZY (writers): the lazy slot is written only by set_result / set_exception; R-C13-ORDER (race): no second terminal action after a failed result store",
 ]
 NOT_DECIDED = ["bucket content across retry chains as a value (follows from same-id overwrite)", "bucket TTL expiry timing"]
 ASSUMPTIONS = ["store_bucket under an existing id overwrites (both bucket brokers: dict assignment / Redis SET)"]
@@ -35,6 +36,10 @@ def run(ctx: Ctx) -> None:
     bucket_brokers(ctx)
     from .C02 import catch
 
+    from .C02 import race
+
+    with ctx.as_rule("R-C13-ORDER"):
+        race(ctx, "R-C13-ORDER")  # a failing result store (after the disposition) is not answered with another terminal action by the runner
     catch(ctx, "R-C13-OUTCOME")  # whatever fails between the actor call and the encoded return value ends as a recorded failed outcome
     order(ctx)
     off(ctx)
